@@ -83,6 +83,12 @@ func families(tier string) []family {
 	mini := product(miniNames, miniTargets, "rdsh")
 	link := append(product([]string{"a", "b", "l"}, []string{".", "..", "a/..", "l/..", "b/evil"}, "s"), entry{kind: 'r', name: "a"}, entry{kind: 'r', name: "b"})
 	chain := append(product([]string{"a", "b", "l", "m"}, []string{".", "l/..", "m/..", "b/evil"}, "s"), entry{kind: 'r', name: "a"})
+	// directory entries two missing levels below a name that an earlier entry may have made a symbolic
+	// link: a parent check that stops at the first missing directory would not see the link
+	deep := []entry{{kind: 'd', name: "a/x/y"}, {kind: 'd', name: "b/x/y"}}
+	core = append(core, deep...)
+	link = append(link, deep...)
+	chain = append(chain, deep...)
 	three := []string{"empty", "files", "uplink"}
 	if tier != "thorough" {
 		return []family{
